@@ -402,9 +402,12 @@ class MeanAndVariance(Mean):
     other_count_ratio = math_utils.safe_divide(other.count, self._count)
     delta_mean = math_utils.nanadd(self._mean, -prev_mean)
     mean_diff = math_utils.nanadd(other.mean, -self._mean)
+    # A column that is all-NaN on one side has count 0 and a NaN variance there:
+    # `0 * nan` must not poison the other side's variance.
     self._var = (
-        prev_count_ratio * self._var
-        + other_count_ratio * other.var
+        math_utils.nanadd(
+            prev_count_ratio * self._var, other_count_ratio * other.var
+        )
         + prev_count_ratio * delta_mean**2
         + other_count_ratio * mean_diff**2
     )
